@@ -466,6 +466,57 @@ def check_recorded(ctx, R="C18.recorded"):
             ctx.finding(R, pick[0], "pickEnabledInvocable choice", f"pickEnabledInvocable no longer chooses among several enabled alternatives by building Options(...) (returns {[unparse(v)[:50] for v in vals]}): the choice is not recorded for replay")
 
 
+
+INJECTIVE_CONVERSIONS = {"str", "repr", "bytes"}  # distinct values (of one type) give distinct text / bytes
+INJECTIVE_METHODS = {"encode", "hex", "to_bytes"}
+
+
+def check_options_hash(ctx, R="C18.options"):
+    ctx.rule(
+        R,
+        "different options give different header bytes: in deterministicHash (the compile-options / parameter hash stored in the scene "
+        "header) every key and every supported value reaches hasher.update only through conversions that keep distinct values distinct "
+        "(str / repr / bytes and .encode()); a lossy conversion (struct.pack as a double, float(), int(), round(), hash(), a format "
+        "specification) makes different option values hash alike, so data from other compile options is accepted instead of refused",
+    )
+    model = ctx.model
+    fn = model.func(SE, "deterministicHash")
+    mp = fn.args.args[0].arg
+    # the value variable: the local bound to <mapping>[key]
+    vnames = set(lib.locals_assigned(fn, lambda v: isinstance(v, ast.Subscript) and unparse(v.value) == mp))
+    keyvars = {n.target.id for n in ast.walk(fn) if isinstance(n, ast.For) and isinstance(n.target, ast.Name) and mp in lib.names_loaded(n.iter)}
+    ups = [c for c in walk_local(fn) if isinstance(c, ast.Call) and isinstance(c.func, ast.Attribute) and c.func.attr == "update" and c.args]
+    n = 0
+    for c in ups:
+        arg = c.args[0]
+        used = lib.names_loaded(arg) & (vnames | keyvars)
+        if not used:
+            continue
+        n += 1
+        bad = None
+        for x in ast.walk(arg):
+            if isinstance(x, ast.Call):
+                cn = dotted(x.func) or ""
+                if cn in INJECTIVE_CONVERSIONS:
+                    continue
+                if isinstance(x.func, ast.Attribute) and x.func.attr in INJECTIVE_METHODS and not cn.startswith("struct."):
+                    continue
+                bad = x
+            elif isinstance(x, (ast.JoinedStr, ast.BinOp, ast.Subscript)):
+                bad = x
+        if bad is None:
+            ctx.ok(R, c, f"`{norm_text(arg, 40)}` keeps distinct values distinct")
+        else:
+            ctx.finding(
+                R,
+                c,
+                f"lossy conversion {norm_text(bad, 40)} in the options hash",
+                f"deterministicHash feeds `{norm_text(arg, 60)}` to the hash: `{norm_text(bad, 40)}` is not one of the conversions that keep distinct values distinct (str / repr / "
+                f".encode()); e.g. packing a number as a double maps 2**53 and 2**53 + 1 (and 1 and 1.0) to the same bytes, so a scene encoded under other options is accepted",
+            )
+    ctx.floor(R, n, 2, "hasher.update calls fed from the option keys / values")
+
+
 def check_divergence(ctx, R="C18.divergence"):
     ctx.rule(
         R,
@@ -665,3 +716,4 @@ def check(ctx):
     ctx.run(check_streams)
     ctx.run(check_record)
     ctx.run(check_recorded)
+    ctx.run(check_options_hash)
